@@ -125,11 +125,21 @@ def r1_heap_protocol(ctx, prog):
                where=f.loc(f.body))
     ctx.ob('C02.R1', CL + '|one-comparator', len(cmps) == 1 and any('TimerCmp' in (c or '') for c in cmps), 'heap algorithms use comparator type(s): %s' % sorted(str(c) for c in cmps))
     cmpf = prog.fn1(CL + '::TimerCmp::operator()')
-    r = q.returns(cmpf)
-    v = cmpf.s(cmpf.strip_casts(r[0]['val'])) if r else None
-    ok = v is not None and v['k'] == 'BinaryOperator' and v.get('op') == '>' and all((cmpf.field_of(x) or '').endswith('Timer::expired') for x in v['ch']) and \
-        [cmpf.path(x).split('.')[0] for x in v['ch']] == [p['n'] for p in cmpf.params]
-    ctx.ob('C02.R1', '%s|min-heap-by-deadline' % cmpf.name, ok, 'TimerCmp(x, y) is x->expired > y->expired (min-heap on the deadline)', where=cmpf.loc(cmpf.body))
+    # folded, not matched: the functor is interpreted on every pair of deadlines from a small grid and must say "x is due later than y" — however it is written
+    from tbxlint import minterp
+    it_ = minterp.Interp(prog, {}, hooks={}, inline=('*',))
+    ok, wrong = True, None
+    try:
+        for dx in (0, 1, 5, 1 << 40):
+            for dy in (0, 1, 5, 1 << 40):
+                x, y = {'__cls__': CL + '::Timer', '__open__': True, 'expired': dx}, {'__cls__': CL + '::Timer', '__open__': True, 'expired': dy}
+                got = it_.call(cmpf, [it_.ref(x), it_.ref(y)], this={'__cls__': CL + '::TimerCmp', '__open__': True})
+                if bool(got) != (dx > dy):
+                    ok, wrong = False, (dx, dy, got)
+    except AnalysisBroken as e:
+        ok, wrong = False, str(e)
+    ctx.ob('C02.R1', '%s|min-heap-by-deadline' % cmpf.name, ok, 'TimerCmp(x, y) holds exactly when x is due later than y (min-heap on the deadline), folded over a grid of deadlines' if ok else
+           'TimerCmp does not order by deadline: %s' % (wrong,), where=cmpf.loc(cmpf.body))
 
 
 def pure_clock(f, e, depth=0):
@@ -502,4 +512,6 @@ def run(ctx):
     ctx.guard(r5_r6, ctx, prog)
     ctx.guard(r7, ctx, prog)
     ctx.guard(r8, ctx, prog)
+    from rules import C02_replay
+    ctx.guard(C02_replay.r9, ctx, prog)
     return prog
